@@ -43,6 +43,8 @@ def c10(ctx, res):
     path_trace(ctx, res)
     cfg = "MC_C10_quick.cfg" if ctx.quick else "MC_C10_thorough.cfg"
     ctx.gen_replay(res, "upd", "MC_C10.tla", cfg)
+    # sessions: new-value STRINGS ("k<sep>v") under every history of SetFieldSeparator calls, separators of one and two characters
+    ctx.gen_replay(res, "mxj", "Mxj.tla", "Mxj_upd.cfg", procs=4)
     res.assumptions += ["the frame theorem is stated for a fresh new value (occurs nowhere in the Map), so that every replacement is visible to it; the replay also uses a new value equal to values already present (count and post-state from the operational UpdateOp)"]
 
 
@@ -138,6 +140,8 @@ def c03(ctx, res):
     ctx.gen_replay(res, "encv", "MC_C03.tla", "MC_C03_quick.cfg" if ctx.quick else "MC_C03_thorough.cfg", procs=8)
     # the same value space under the other attribute / reserved-key prefixes ("@", "_")
     ctx.gen_replay(res, "encv", "MC_C03.tla", "MC_C03_pfx_quick.cfg" if ctx.quick else "MC_C03_pfx_thorough.cfg", procs=8)
+    # ... and with NO attribute prefix (SetAttrPrefix("") / PrependAttrWithHyphen(false)): no key is an attribute
+    ctx.gen_replay(res, "encv", "MC_C03.tla", "MC_C03_nopfx_quick.cfg" if ctx.quick else "MC_C03_nopfx_thorough.cfg", procs=8)
     res.assumptions += ["scalars are rendered by Go's %v; number formatting is trusted (tokens are canonical: 1.5, true)",
                         "domain: the text key and attribute keys hold non-nil scalars; a single top-level key is a valid element name"]
 
@@ -156,6 +160,8 @@ def c04(ctx, res):
 
 def c05(ctx, res):
     ctx.gen_replay(res, "esc", "MC_C05.tla", "MC_C05_quick.cfg" if ctx.quick else "MC_C05_thorough.cfg", procs=8)
+    # sessions: every history of the two escaping switches (set / clear / toggle) interleaved with decode, encode and the sequence round trip
+    ctx.gen_replay(res, "mxj", "Mxj.tla", "Mxj_esc.cfg", procs=8)
     res.assumptions += ["encoding/xml as the definition of well-formed XML (oracle of the escaping-off / validity-check-on clause)",
                         "decoder-side clause read semantically: numeric references such as &#x41; come back as the character they denote"]
 
